@@ -134,6 +134,16 @@ func qrAlgorithmSymmetric(inSitu *InSitu, epsilon float64) (Matrix, Matrix, erro
     T = T_
     Z = Z_
   }
+  // off-diagonal entries below machine precision relative to the largest
+  // entry of T are numerically zero, irrespective of epsilon (a block
+  // [a e; e a] with |e| below the precision of a is invariant under QR steps)
+  floor := 0.0
+  for i := 0; i < n; i++ {
+    for j := 0; j < n; j++ {
+      floor = math.Max(floor, math.Abs(T.ConstAt(i,j).GetFloat64()))
+    }
+  }
+  floor *= 2.220446e-16
 
   for p, q := 0, 0; q < n; {
 
@@ -141,7 +151,7 @@ func qrAlgorithmSymmetric(inSitu *InSitu, epsilon float64) (Matrix, Matrix, erro
       t11 := T.At(i  ,i  ).GetFloat64()
       t21 := T.At(i+1,i  ).GetFloat64()
       t22 := T.At(i+1,i+1).GetFloat64()
-      if math.Abs(t21) <= epsilon*(math.Abs(t11) + math.Abs(t22)) {
+      if math.Abs(t21) <= epsilon*(math.Abs(t11) + math.Abs(t22)) || math.Abs(t21) <= floor {
         T.At(i+1,i  ).SetFloat64(0.0)
         T.At(i  ,i+1).SetFloat64(0.0)
       }
